@@ -33,6 +33,7 @@ type fixture struct {
 	// Go layer refuses up front (a 47-byte signature, an identity public key) next to valid ones
 	batchPks           []crypto.PublicKey
 	batchSigs          []crypto.Signature
+	Hmid               hash.Hasher // a third shared KMAC128 hasher that is in the MIDDLE of a stream (Write, no SumHash/Reset yet)
 	Hused              hash.Hasher // a second shared KMAC128 hasher that was used for streaming before (Write, SumHash, Reset)
 	pop                hash.Hasher // package-level PoP hasher
 	sk1, sk2           crypto.PrivateKey
@@ -109,6 +110,8 @@ func (r *recipe) fresh() *fixture {
 	_, _ = f.Hused.Write([]byte("earlier streaming use"))
 	_ = f.Hused.SumHash()
 	f.Hused.Reset()
+	f.Hmid = crypto.NewExpandMsgXOFKMAC128("c19-mid")
+	_, _ = f.Hmid.Write([]byte("bytes written before the hasher is lent to ComputeHash users"))
 	f.pop = crypto.VerifPopKMAC()
 	f.sk1 = must(crypto.GeneratePrivateKey(crypto.BLSBLS12381, r.seedB1))
 	f.sk2 = must(crypto.GeneratePrivateKey(crypto.BLSBLS12381, r.seedB2))
@@ -140,6 +143,7 @@ func (r *recipe) fresh() *fixture {
 	add := func(n string, v any) { f.names = append(f.names, n); f.shared = append(f.shared, v) }
 	add("kmac-hasher", f.H)
 	add("kmac-hasher-used-before", f.Hused)
+	add("kmac-hasher-mid-stream", f.Hmid)
 	add("pop-hasher", f.pop)
 	add("bls-sk1", f.sk1)
 	add("bls-sk2", f.sk2)
@@ -261,6 +265,8 @@ var ops = []opDef{
 		s, err := crypto.AggregateBLSSignatures(f.batchSigs[:3])
 		return fmt.Sprintf("%x,%v", []byte(s), err)
 	}},
+	{"KMAC[mid-stream].ComputeHash(m1)", func(f *fixture) string { return fmt.Sprintf("%x", []byte(f.Hmid.ComputeHash(f.m1))) }},
+	{"BLS.Sign(sk1,m1,H[mid-stream])", func(f *fixture) string { s, err := f.sk1.Sign(f.m1, f.Hmid); return fmt.Sprintf("%x,%v", []byte(s), err) }},
 	{"KMAC[used before].ComputeHash(m1)", func(f *fixture) string { return fmt.Sprintf("%x", []byte(f.Hused.ComputeHash(f.m1))) }},
 	{"KMAC[used before].ComputeHash(m2)", func(f *fixture) string { return fmt.Sprintf("%x", []byte(f.Hused.ComputeHash(f.m2))) }},
 	{"AggregateBLSPublicKeys([pk1,pk2]).Encode", func(f *fixture) string {
@@ -309,8 +315,20 @@ func programs(thorough bool) []program {
 	// one call overlapped by two successive calls of another (or the same) operation: all ordered
 	// pairs. Catches state that is handed from one call to the next (scratch buffers, try-locks,
 	// caches) while a third call is still in progress; costs one preemption.
+	// (quick tier: y from the same function family as x, or a ComputeHash on one of the shared
+	// hashers; thorough: all ordered pairs)
+	fam := func(i int) string {
+		n := ops[i].Name
+		if k := strings.IndexAny(n, "(["); k >= 0 {
+			n = n[:k]
+		}
+		return n
+	}
 	for i := range ops {
 		for j := range ops {
+			if !thorough && fam(i) != fam(j) && fam(j) != "KMAC" {
+				continue
+			}
 			ps = append(ps, program{len(ps), []int{i, j}, []int{1, 2}})
 		}
 	}
@@ -709,7 +727,7 @@ func main() {
 	run.Set("states", run.Get("executions"))
 	run.Set("preemption_bound", map[string]int{"two_threads": b2, "three_threads": b3})
 	run.Set("max_schedules_per_program", map[string]int{"two_threads": m2, "three_threads": m3})
-	run.Set("rule", "program = 2 threads (thorough also 3 with a ComputeHash) running one operation each from the 29-operation alphabet (incl. a batch verification and an aggregation over SHARED argument lists that hold a 47-byte signature and an identity key; the lists themselves are snapshotted) (incl. ComputeHash on a hasher that was used for streaming before it was shared) (list-taking operations in two variants with different inputs and results) (KMAC ComputeHash x2 on ONE shared hasher, BLS Sign/Verify/VerifyPOP/GeneratePOP/SPOCKVerify/aggregate/many-message/batch verification sharing keys, that hasher and the package-level PoP hasher, ECDSA Sign/Verify on both curves with per-thread hashers): all unordered pairs, plus all ordered pairs (x, y) as 'one call of x overlapped by two successive calls of y' (the point between the two calls is a free switch point); every execution starts from FRESH shared objects (new hasher, public keys decoded from bytes and never used before), so first use / lazy initialisation is inside the explored schedules; for each program ALL schedules within the preemption bound over statement-level scheduling points in hash/kmac.go, bls.go, bls_multisig.go, spock.go, ecdsa.go; monitors: results equal the solo results, and after EVERY scheduling point a deep reflective snapshot of all shared objects and of the two frames that hold every message and signature (sub-slices with spare capacity, guard bytes) equals the initial one. executions = complete schedules; distinct_nontrivial = programs.")
+	run.Set("rule", "program = 2 threads (thorough also 3 with a ComputeHash) running one operation each from the 31-operation alphabet (incl. ComputeHash and Sign on a hasher that is in the middle of a stream) (incl. a batch verification and an aggregation over SHARED argument lists that hold a 47-byte signature and an identity key; the lists themselves are snapshotted) (incl. ComputeHash on a hasher that was used for streaming before it was shared) (list-taking operations in two variants with different inputs and results) (KMAC ComputeHash x2 on ONE shared hasher, BLS Sign/Verify/VerifyPOP/GeneratePOP/SPOCKVerify/aggregate/many-message/batch verification sharing keys, that hasher and the package-level PoP hasher, ECDSA Sign/Verify on both curves with per-thread hashers): all unordered pairs, plus ordered pairs (x, y) as 'one call of x overlapped by two successive calls of y' (quick: y of the same function family as x or a ComputeHash on a shared hasher; thorough: all ordered pairs) (the point between the two calls is a free switch point); every execution starts from FRESH shared objects (new hasher, public keys decoded from bytes and never used before), so first use / lazy initialisation is inside the explored schedules; for each program ALL schedules within the preemption bound over statement-level scheduling points in hash/kmac.go, bls.go, bls_multisig.go, spock.go, ecdsa.go; monitors: results equal the solo results, and after EVERY scheduling point a deep reflective snapshot of all shared objects and of the two frames that hold every message and signature (sub-slices with spare capacity, guard bytes) equals the initial one. executions = complete schedules; distinct_nontrivial = programs.")
 	run.Assume("private keys have their public key computed before the threads start (lazy public-key caching of private keys is not part of the listed operations)", "interleavings at statement granularity of the instrumented Go files, sequentially consistent; calls into x/crypto, the standard library and C are atomic steps (data races inside them are invisible to this technique)", "ECDSA Sign is randomised: its output is verified, not compared")
 	run.Finish()
 }
